@@ -43,7 +43,8 @@ def optNat (t : String) : Option Nat := if t = "none" then none else some (natD 
 def parseStrategy : String → Strategy
   | "priority" => .priority | "oldest" => .oldest | _ => .other
 
-def parseCp (c : Char) : CpOut := if c = 'n' then .no else if c = 'x' then .raise else .base
+def parseCp (c : Char) : CpOut :=
+  if c = 'n' then .no else if c = 'x' || c = 'y' || c = 'z' then .raise else .base
 
 def parseReq (t : String) : List Nat :=
   if t = "-" || t = "none" then [] else (t.splitOn ",").map (natD ·)
@@ -52,8 +53,8 @@ def parseAct (t : String) : WorkAct :=
   if t = "s" then .shutdown else if t = "w" then .watchdog else if t = "m" then .maint
   else if t.startsWith "k" then .kill (natD (t.drop 1).toString) else .none
 
-def parseVal : String → ValOut
-  | "yes" => .yes | "no" => .no | "raise" => .raise | _ => .absent
+def parseVal (t : String) : ValOut :=
+  if t = "yes" then .yes else if t = "no" then .no else if t.startsWith "raise" then .raise else .absent
 
 /-- rotate a cycle so that its smallest member comes first -/
 def rotateMin (c : List Nat) : List Nat :=
@@ -90,6 +91,40 @@ def execTags (r : ExecRes) : List String :=
     | .validate false => some "x:val-fail"
     | .complete => some "x:commit"
     | _ => none
+
+def parsePost (t : String) : PostOut :=
+  if t = "notag" then .noTag else if t.startsWith "raise" then .raise else .ok
+
+/-- exception kinds whose `str()` is empty end in `0` ("raise.V0" = `ValueError()`) -/
+def emptyMsg (t : String) : Bool := t.endsWith "0"
+
+/-- `CoordinationResult.error`: absent on success; the empty string only when `validate_fn` raised an exception
+    without a message (every other failure carries a text of the code's own) -/
+def showErr (r : ExecRes) (adv : Adv) (valTok : String) : String :=
+  if r.success then "none"
+  else if adv.val == .raise && r.log.contains (.validate false) && emptyMsg valTok then "empty" else "text"
+
+def parseAdv (cps work val : String) : Adv × Nat :=
+  let cpl := cps.toList.map parseCp
+  let (act, ok, tick) := match work.splitOn ":" with
+    | [a, k] => (parseAct a, k == "ok", 0)
+    | [a, k, d] => (parseAct a, k == "ok", natD d)
+    | _ => (WorkAct.none, true, 0)
+  ({ cp := fun i => cpl.getD i .base, tick := tick, act := act, workOk := ok, val := parseVal val }, tick)
+
+def showExec (r : ExecRes) (adv : Adv) (valTok : String) (op : Nat) (reqL : List Nat) : String :=
+  let own := match r.atWork with
+    | none => "-"
+    | some w => String.join (reqL.map fun x =>
+        match w.locks x with
+        | some l => showBool (l.owner == some op)
+        | none => "?")
+  s!"{showBool r.success} {showPhase r.phase} err:{showErr r adv valTok} own:{own} {showList (r.log.filterMap showLogEv)}"
+
+def killedTag (r : ExecRes) (adv : Adv) (op : Nat) : List String :=
+  match r.atWork with
+  | some w => if ((applyAct { w with now := w.now + adv.tick } adv.act).ctx? op).isNone then ["x:killed-in-work"] else []
+  | none => []
 
 def withDump (s : Sys) (res : String) (tags : List String := []) : Sys × String :=
   (s, s!"{res} | {dump s}" ++ (if tags.isEmpty then "" else " ## " ++ joinSp tags))
@@ -147,25 +182,22 @@ def step (s : Sys) (toks : List String) : Sys × String :=
     let r := maintenance s
     withDump r.1 s!"{showBoosts r.2.1} {showEvents r.2.2}" (r.2.2.map fun e => s!"wd:{showReason e.2}")
   | ["exec", o, p, req, cps, work, val] =>
-    let cpl := cps.toList.map parseCp
-    let (act, ok, tick) := match work.splitOn ":" with
-      | [a, k] => (parseAct a, k == "ok", 0)
-      | [a, k, d] => (parseAct a, k == "ok", natD d)
-      | _ => (WorkAct.none, true, 0)
-    let adv : Adv := { cp := fun i => cpl.getD i .base, tick := tick, act := act, workOk := ok, val := parseVal val }
+    let (adv, _) := parseAdv cps work val
     let reqL := parseReq req
     let op := natD o
     let r := exec s op (intD p) reqL adv
-    let own := match r.atWork with
-      | none => "-"
-      | some w => String.join (reqL.map fun x =>
-          match w.locks x with
-          | some l => showBool (l.owner == some op)
-          | none => "?")
-    withDump r.sys s!"{showBool r.success} {showPhase r.phase} own:{own} {showList (r.log.filterMap showLogEv)}"
-      (execTags r ++ (match r.atWork with
-        | some w => if ((applyAct { w with now := w.now + tick } act).ctx? op).isNone then ["x:killed-in-work"] else []
-        | none => []))
+    withDump r.sys (showExec r adv val op reqL) (execTags r ++ killedTag r adv op)
+  | ["cell", o, p, req, cps, work, val, post] =>
+    let (adv, _) := parseAdv cps work val
+    let reqL := parseReq req
+    let op := natD o
+    let c := cellExecute s op (intD p) reqL adv (parsePost post)
+    let blk := if c.blockedByCoordination then "coordination" else "none"
+    withDump c.sys
+      (s!"cell:{showBool c.success} {blk} out:{showBool c.hasOutput} att:{showBool c.coordAttached} " ++
+       s!"trk:{showBool c.tracked} {showExec c.coord adv val op reqL}")
+      (execTags c.coord ++ killedTag c.coord adv op ++
+        [if c.success then "cell:ok" else if c.blockedByCoordination then "cell:blocked" else "cell:post-raise"])
   | _ => (s, "bad-op")
 
 end Operon.Coord
